@@ -6,7 +6,7 @@ import petl as etl
 from hypothesis import strategies as st
 
 from pv import gen, codec
-from pv.core import Sub, Fail, exc_fail
+from pv.core import Sub, Fail, exc_fail, two_iterators
 from pv.order import ref_cmp, ref_key
 from pv.ref import base as R
 
@@ -283,6 +283,15 @@ def check(case, ctx):
             back2 = _T(etl.fromdicts(iter(list(ds)), header=hdr))
             if back2 != exp or _T(etl.fromdicts(list(ds), header=hdr)) != exp:
                 return fail("fromdicts(dicts, header)", back2, exp)
+            # dicts streamed through a generator (the spill-file path), read by two iterators of which one lags behind,
+            # and once more afterwards
+            for lag, kw in ((2, {"header": hdr}), (3, {}), (0, {"header": hdr})):
+                gv = etl.fromdicts((d for d in ds), **kw)
+                ra, rb = two_iterators(gv, lag=lag)
+                again = _T(gv)
+                for name, got in (("leading iterator", ra), ("lagging iterator", rb), ("later pass", again)):
+                    if not codec.strict_eq(got, exp):
+                        return fail("fromdicts(generator of dicts), %s (lag %d)" % (name, lag), got, exp)
         else:
             cols = etl.columns(T)
             back = _T(etl.fromcolumns(list(cols.values()), header=list(cols.keys())))
